@@ -13,6 +13,8 @@ vars == <<base, prog, nb>>
 
 Bases ==
     CASE Camp = "locals"  -> {[types |-> "plain", locals |-> l, customs |-> 0, comp |-> c, imp2 |-> FALSE] : l \in {"none", "a", "aa", "ab"}, c \in BOOLEAN}
+                              \* two equal locals declared as two groups of one in the binary
+                              \cup {[types |-> "plain", locals |-> "aa_split", customs |-> 0, comp |-> FALSE, imp2 |-> FALSE]}
                               \cup {[types |-> "plain", locals |-> "a", customs |-> 0, comp |-> FALSE, imp2 |-> TRUE]}
       [] Camp = "build"   -> {[types |-> t, locals |-> "a", customs |-> 0, comp |-> FALSE] : t \in {"plain", "rec"}}
                               \* the module inside a component: FunctionBuilder::finish_component
@@ -43,6 +45,8 @@ ReplaceOps ==
     {[op |-> "build", n |-> nb + 1, params |-> <<>>, results |-> <<>>, locals |-> l, body |-> b, name |-> "", via |-> "replace"] :
         l \in {<<>>, <<"i64", "i64">>}, b \in {<<>>, <<"i32_const_7", "drop">>}}
 
+RefTys == {"anynull", "any", "eqnull", "eq", "structnull", "struct", "arraynull", "array", "i31null", "i31",
+           "nonenull", "nofuncnull", "noexternnull", "func", "extern"}
 TypeOps ==
        {[op |-> "add_type", kind |-> "func", params |-> p, results |-> r] :
             p \in {<<>>, <<"i32">>, <<"i64">>}, r \in {<<>>, <<"f32">>}}
@@ -50,6 +54,9 @@ TypeOps ==
   \cup {[op |-> "add_type", kind |-> "struct", fields |-> f] : f \in {<<>>, << <<"i32", FALSE>> >>, << <<"i32", TRUE>>, <<"f64", FALSE>> >>}}
   \cup {[op |-> "add_type", kind |-> "func", params |-> <<>>, results |-> <<>>, full |-> TRUE, final |-> FALSE, shared |-> FALSE],
         [op |-> "add_type", kind |-> "array", elem |-> "i64", mut |-> TRUE, full |-> TRUE, final |-> TRUE, shared |-> TRUE]}
+  \* reference-typed parameters and fields: every abstract heap type, nullable and not
+  \cup {[op |-> "add_type", kind |-> "func", params |-> <<t>>, results |-> <<>>] : t \in RefTys}
+  \cup {[op |-> "add_type", kind |-> "struct", fields |-> << <<t, TRUE>> >>] : t \in {"arraynull", "eq", "i31null", "nofuncnull"}}
   \* declared subtypes of the base's open (non-final) struct type: same fields with and without the supertype are
   \* DIFFERENT types
   \cup {[op |-> "add_type", kind |-> "struct", fields |-> << <<"i32", FALSE>> >>, full |-> TRUE, final |-> f, shared |-> FALSE,
@@ -80,6 +87,8 @@ CustOps ==
   \cup {[op |-> "cust_del", id |-> i] : i \in 0 .. 3}
   \cup {[op |-> "cust_mod", id |-> i, bytes |-> "bb0" \o ToString(nb)] : i \in 0 .. 3}
 
+IsRefTyOp(o) == \/ (o.kind = "func" /\ Len(o.params) = 1 /\ o.params[1] \in RefTys)
+                \/ (o.kind = "struct" /\ Len(o.fields) = 1 /\ o.fields[1][1] \in RefTys)
 Ops == CASE Camp = "locals" -> (IF base.comp THEN CompLocalOps
                                 ELSE IF base.imp2 THEN {[op |-> "add_local", f |-> f, ty |-> t, via |-> v] :
                                                            f \in {0, 1}, t \in {"i32", "f64"}, v \in {"modifier", "modifier_many", "iter"}}
@@ -114,6 +123,7 @@ Step == /\ Len(prog) < MaxOps
              /\ ((o.op = "add_data" /\ o.kind = "active" /\ o.off.k = "global") => (prog # <<>> /\ prog[1].op = "add_iglobal"))
              \* the constant variety matters per call, not per combination: at most one non-i32 initialiser per program
              /\ ((o.op = "add_global" /\ o.init.k # "i32") => ~\E j \in DOMAIN prog : prog[j].op = "add_global" /\ prog[j].init.k # "i32")
+             /\ ((o.op = "add_type" /\ IsRefTyOp(o)) => ~\E j \in DOMAIN prog : prog[j].op = "add_type" /\ IsRefTyOp(prog[j]))
              /\ prog' = Append(prog, o)
         /\ nb' = nb + 1 /\ UNCHANGED base
 Next == Step
